@@ -115,5 +115,5 @@ func (je *JudgedEffect) nonFresh() (out []Root, where string) {
 			}
 		}
 	}
-	return dedupRoots(out), where
+	return dedupRootsCap(out, 0), where
 }
